@@ -166,6 +166,11 @@ def check_branch(P, R, key, rule="BRANCH"):
                 r2 = stable_roots(P, f, du, a2, site)
                 if r2 <= r1 and r1 - r2 <= {"y"}:
                     r1 = r2  # the Dask arm may additionally use the labels: it works on per-class splits of the same data
+                if isinstance(a1, ast.Subscript) and isinstance(a2, ast.Subscript) and src(a1.value) == src(a2.value):
+                    c1, c2 = const_value(a1.slice), const_value(a2.slice)
+                    if (c1 is None) != (c2 is None):
+                        R.violation(rule + ".args", key, w, f"one arm selects element `{src(a1.slice)}` and the other `{src(a2.slice)}` of `{src(a1.value)}`: a fixed element in one arm, the class's own element in the other", call.lineno)
+                        continue
                 R.check(r1 == r2, rule + ".args", key, w, f"same sources {sorted(r1)}", f"parameter {prm} derives from {sorted(r1)} in the Dask arm but from {sorted(r2)} in the in-memory arm: the arms compute with different inputs", call.lineno)
         # names bound in one arm and used afterwards must be bound in the other
         def bound(stmts):
